@@ -81,22 +81,31 @@ Definition verify_ok (hyd : prehyd) (expected : index) : bool :=
    ([FTorn]). A failed write removes the file.
    [write_fails]: a WriteEntry/Close error occurs (fault oracle). [perm]: map iteration order of the
    deduplicated entries. Returns the target path afterwards and whether the write succeeded. *)
+(* write faults (oracle): none; while the new file's header / name is being written (the file is left
+   behind shorter than header + name - what the next open creates again); later (WriteEntry / Close:
+   the migrator removes the file) *)
+Inductive wfault := WNoFault | WFailCreate | WFailWrite.
+
 Definition open_target (pre : prehyd) (nm : name) : option fimg :=
   match pre with
   | PreNone | PreShort => Some (FGood nm [])
   | PreFile f => open_temp (Some (NFile f)) nm
   end.
 
-Definition write_v2 (pre : prehyd) (nm : name) (ix : index) (perm : list key) (write_fails : bool)
+Definition write_v2 (pre : prehyd) (nm : name) (ix : index) (perm : list key) (wf : wfault)
   : prehyd * bool :=
   match open_target pre nm with
   | None => (pre, false)                                  (* writer cannot be created: nothing touched *)
   | Some f0 =>
-    if write_fails then (PreNone, false)                  (* os.Remove(filePath) *)
-    else (PreFile (fappend f0 (compact_entries ix perm)), true)
+    match wf, pre with
+    | WFailCreate, (PreNone | PreShort) => (PreShort, false)   (* createNewFile failed half way *)
+    | WFailCreate, PreFile _ => (pre, false)              (* opening an existing file writes nothing *)
+    | WFailWrite, _ => (PreNone, false)                   (* os.Remove(filePath) *)
+    | WNoFault, _ => (PreFile (fappend f0 (compact_entries ix perm)), true)
+    end
   end.
 
-Definition migrate (cfg : mcfg) (perm : list key) (write_fails : bool) (folder : v1folder) (pre : prehyd)
+Definition migrate (cfg : mcfg) (perm : list key) (write_fails : wfault) (folder : v1folder) (pre : prehyd)
   : mstate * phase :=
   let keep := MS (Some folder) pre in
   match mig_load (v1_files folder) with
@@ -221,7 +230,10 @@ Definition prehyd_eqb (a b : prehyd) : bool :=
 (* replay: the migrator model, with the iteration order read off the resulting file *)
 Definition mig_replay (c : mcase) : N :=
   let perm := match mc_hyd c with PreFile (FGood _ es) => map e_key es | _ => [] end in
-  let wf := match mc_phase c with PFailWrite => mc_write_fault c | _ => false end in
+  let wf := match mc_phase c with
+            | PFailWrite => if mc_write_fault c then (match mc_hyd c with PreShort => WFailCreate | _ => WFailWrite end) else WNoFault
+            | _ => WNoFault
+            end in
   let '(st, ph) := migrate (mc_cfg c) perm wf (mc_folder c) (mc_pre c) in
   let v1_ok := Bool.eqb (match m_v1 st with None => true | Some _ => false end) (mc_v1_deleted c) in
   let hyd_ok := prehyd_eqb (m_hyd st) (mc_hyd c) in
